@@ -954,7 +954,7 @@ func opReferenceChangeJournal(ctx context.Context, pc *uint64, interpreter *EVMI
 	unmask := func(rawData []byte, length uint64) []byte {
 		data := new(uint256.Int).SetBytes(rawData)
 		mask := new(uint256.Int).Add(storageMask, zero)
-		ret := data.And(data, mask.Not(mask)).Bytes()
+		ret := data.And(data, mask.Not(mask)).Bytes32()
 		return ret[:]
 	}
 
